@@ -11,7 +11,17 @@ ReservedChannelName(u) ==
       stop == FirstPosIn(rest, {47, 63, 35})
       name == IF stop = 0 THEN rest ELSE SubSeq(rest, 1, stop - 1)
   IN pathStart # 0 /\ HasSub(lo, <<121,111,117,116,117>>) /\ \E i \in 1..Len(D19.reserved_channel_names) : D19.reserved_channel_names[i] = name
-Triggers(e) == IF ReservedChannelName(e.u) THEN {"ReservedChannelName"} ELSE {}
+\* a '[' or ']' in the authority that is not a well-formed IPv6 literal: urllib's urlsplit raises ValueError, which every
+\* function built on safe_urlsplit lets through (library-wide convention, open finding KF-C19-2)
+BracketInAuthority(u) ==
+  LET s == Strip(u)
+      a == FindSub(s, <<47, 47>>)
+      rest == IF a = 0 THEN s ELSE From(s, a + 2)
+      stop == FirstPosIn(rest, {47, 63, 35})
+      auth == IF stop = 0 THEN rest ELSE SubSeq(rest, 1, stop - 1)
+  IN \E i \in 1..Len(auth) : auth[i] \in {91, 93}
+Triggers(e) == (IF ReservedChannelName(e.u) THEN {"ReservedChannelName"} ELSE {})
+               \cup (IF BracketInAuthority(e.u) THEN {"BracketInAuthority"} ELSE {})
 TrInit == l = 1 /\ host = 1 /\ segs = <<>> /\ items = <<>> /\ frag = 1 /\ slash = FALSE
 TrNext ==
   /\ l <= Len(Tr)
